@@ -895,6 +895,10 @@ func (fr *Frame) callAsserts(args []Val, in ssa.Instruction) {
 			fr.ex.oos("%s: at %s: %v", shortName(fr.fn.String()), site, err)
 			continue
 		}
-		fr.ex.oblige("at:"+site+"/assert:"+strings.ReplaceAll(cl.Src[strings.Index(cl.Src, " assert ")+8:], " ", ""), "assert", fr.pos(in), fr.cur, t)
+		nm := strings.ReplaceAll(cl.Src[strings.Index(cl.Src, " assert ")+8:], " ", "")
+		if cl.Label != "" && !strings.HasPrefix(cl.Label, "requires#") && !strings.HasPrefix(cl.Label, "ensures#") {
+			nm = cl.Label
+		}
+		fr.ex.oblige("at:"+site+"/assert:"+nm, "assert", fr.pos(in), fr.cur, t)
 	}
 }
